@@ -4,7 +4,8 @@ claim("C14",
       "typestate analysis on CFG paths with versioned node handles (reset-on-growth), def-use provenance of cache stores",
       "Decides, for every path of every function of the package, that a node which gains a successor has its cached "
       "seeds, sets and candidates discarded (or was already expanded), that every value written into the attractor caches was computed "
-      "for that same node, and that seeds replace candidates only when known. This is the second sentence of the "
+      "for that same node, that nothing computes and caches such data between the reset and the growth, and that seeds "
+      "replace candidates only when known. This is the second sentence of the "
       "property as a path property of the code; it holds for all inputs and histories because it holds on all paths.",
       "Assumes node attribute dicts are only reached via node_data()/dag.nodes[]; value-level exactness of the cached "
       "data is C01/C08. Exceptional exits are handled under C15.",
@@ -21,7 +22,8 @@ claim("C04",
       "Decides on every path of every function that can add an edge: a node that gains a successor is finalised "
       "(expanded=True on the same handle) and was tested unexpanded; the flag is only ever raised; nothing is removed; "
       "a node is created only after a failed lookup of the key of its percolated space and is registered under it; the "
-      "single-node expansion feeds the complete solver result for that node, unfiltered, into child creation. These are "
+      "single-node expansion feeds the complete solver result for that node, unfiltered, into child creation; the plain "
+      "strategies and node_successors grow the diagram through that expansion only and never ask for skip nodes. These are "
       "the invariants 'expanded => all successors, unexpanded => none, one node per trap space' as path properties.",
       "Does not decide that a continued full expansion equals a fresh one as values (follows from these invariants plus "
       "solver determinism, C19/C09). The source-SCC root shortcut is exempt from the not-yet-expanded rule (fresh diagrams only).",
@@ -148,7 +150,8 @@ claim("C09",
       "Decides encoder/decoder agreement of both encodings (all sites use one polarity convention; the place codec is a "
       "bijection), time-reversal symmetry, that each clause kind is emitted exactly under its condition with unfiltered "
       "ranges, that results never exceed the solution limit (empty for limit <= 0), and that the caller's request "
-      "(enclosing subspace, avoided subspaces, retained set, problem, time direction) reaches the encoder unchanged.",
+      "(enclosing subspace, avoided subspaces, retained set, problem, time direction) reaches the encoder unchanged, on "
+      "every path of the two solver entry points (no early exit, no delegation to another entry point).",
       "That the logic programs have the intended models is clingo's semantics and is assumed.",
       "DESIGN.md §3 C09")
 
